@@ -54,7 +54,7 @@ type textCase struct {
 // corpusFiles returns the grammar texts used for prefixes and edits.
 func corpusFiles() []gram.Named2 {
 	var out []gram.Named2
-	ents, _ := filepath.Glob("/repo/examples/*.y")
+	ents, _ := filepath.Glob(repoDir() + "/examples/*.y")
 	sort.Strings(ents)
 	for _, p := range ents {
 		b, err := os.ReadFile(p)
@@ -230,7 +230,7 @@ func nativeStillRunning(w *Worker, text string, d time.Duration) (bool, error) {
 	if nativeBin == "" {
 		bin := filepath.Join(w.Scratch, fmt.Sprintf("yaccgo-native-%d", os.Getpid()))
 		cmd := exec.Command("go", "build", "-o", bin, "./yaccgo")
-		cmd.Dir = "/repo"
+		cmd.Dir = repoDir()
 		if out, err := cmd.CombinedOutput(); err != nil {
 			return false, fmt.Errorf("go build: %v %s", err, out)
 		}
